@@ -5,6 +5,7 @@ package main
 
 import (
 	"bytes"
+	"encoding/json"
 	"fmt"
 	"os"
 	"path/filepath"
@@ -262,8 +263,70 @@ func transformOptions(p *Opts) api.TransformOptions {
 		MinifyWhitespace: p.MinifyWS, MinifyIdentifiers: p.MinifyIDs, MinifySyntax: p.MinifySyn,
 		LineLimit: p.LineLimit, Charset: charsetOf(p.Charset), TreeShaking: treeOf(p.TreeShaking),
 		LegalComments: legalOf(p.LegalCmts), JSX: jsxOf(p.JSX), TsconfigRaw: p.TsconfigRaw,
-		Define: defines(p.Define), KeepNames: p.KeepNames, Sourcefile: p.Sourcefile, Loader: loaderOf(p.Loader),
+		Define: defineOf(p), KeepNames: p.KeepNames, Sourcefile: p.Sourcefile, Loader: loaderOf(p.Loader),
+		Pure: p.Pure, ReserveProps: p.ReserveProps, JSXFactory: p.JSXFactory, JSXFragment: p.JSXFragment, JSXImportSource: p.JSXImportSource,
+		DropLabels: p.DropLabels, SourceRoot: p.SourceRoot, Supported: p.Supported, LogOverride: logOverrideOf(p.LogOverride),
+		MangleCache: mangleCacheOf(p.MangleCacheJSON), Banner: oneOf(p.Banner), Footer: oneOf(p.Footer),
 	}
+}
+
+func oneOf(m map[string]string) string {
+	for _, v := range m {
+		return v
+	}
+	return ""
+}
+
+func defineOf(p *Opts) map[string]string {
+	if p.DefineKV != nil {
+		return p.DefineKV
+	}
+	return defines(p.Define)
+}
+
+func logOverrideOf(m map[string]string) map[string]api.LogLevel {
+	if m == nil {
+		return nil
+	}
+	out := map[string]api.LogLevel{}
+	for k, v := range m {
+		out[k] = map[string]api.LogLevel{"silent": api.LogLevelSilent, "error": api.LogLevelError, "warning": api.LogLevelWarning, "info": api.LogLevelInfo}[v]
+	}
+	return out
+}
+
+func mangleCacheOf(s string) map[string]interface{} {
+	if s == "" {
+		return nil
+	}
+	var m map[string]interface{}
+	if json.Unmarshal([]byte(s), &m) != nil {
+		return nil
+	}
+	return m
+}
+
+func loaderMapOf(m map[string]string) map[string]api.Loader {
+	out := map[string]api.Loader{".txt": api.LoaderText, ".data": api.LoaderBinary, ".png": api.LoaderDataURL, ".file": api.LoaderFile, ".lcss": api.LoaderLocalCSS}
+	for k, v := range m {
+		switch v {
+		case "file":
+			out[k] = api.LoaderFile
+		case "dataurl":
+			out[k] = api.LoaderDataURL
+		case "binary":
+			out[k] = api.LoaderBinary
+		case "copy":
+			out[k] = api.LoaderCopy
+		case "empty":
+			out[k] = api.LoaderEmpty
+		case "base64":
+			out[k] = api.LoaderBase64
+		default:
+			out[k] = loaderOf(v)
+		}
+	}
+	return out
 }
 
 func execBuild(c *Case, o *Outcome) {
@@ -284,7 +347,11 @@ func execBuild(c *Case, o *Outcome) {
 	p := &c.Opts
 	var entries []string
 	for _, e := range c.Entry {
-		entries = append(entries, filepath.Join(dir, filepath.FromSlash(e)))
+		if p.GlobEntries {
+			entries = append(entries, e) // relative glob, resolved against AbsWorkingDir
+		} else {
+			entries = append(entries, filepath.Join(dir, filepath.FromSlash(e)))
+		}
 	}
 	opts := api.BuildOptions{
 		LogLevel: api.LogLevelSilent, LogLimit: 20, AbsWorkingDir: dir, EntryPoints: entries, Bundle: true, Write: false,
@@ -295,8 +362,13 @@ func execBuild(c *Case, o *Outcome) {
 		MinifyWhitespace: p.MinifyWS, MinifyIdentifiers: p.MinifyIDs, MinifySyntax: p.MinifySyn,
 		LineLimit: p.LineLimit, Charset: charsetOf(p.Charset), TreeShaking: treeOf(p.TreeShaking),
 		LegalComments: legalOf(p.LegalCmts), JSX: jsxOf(p.JSX), TsconfigRaw: p.TsconfigRaw,
-		Define: defines(p.Define), KeepNames: p.KeepNames, Metafile: p.Metafile, Splitting: p.Splitting,
-		Loader: map[string]api.Loader{".txt": api.LoaderText, ".data": api.LoaderBinary, ".png": api.LoaderDataURL, ".file": api.LoaderFile, ".lcss": api.LoaderLocalCSS},
+		Define: defineOf(p), KeepNames: p.KeepNames, Metafile: p.Metafile, Splitting: p.Splitting,
+		Loader: loaderMapOf(p.LoaderMap),
+		Pure:   p.Pure, ReserveProps: p.ReserveProps, JSXFactory: p.JSXFactory, JSXFragment: p.JSXFragment, JSXImportSource: p.JSXImportSource,
+		DropLabels: p.DropLabels, SourceRoot: p.SourceRoot, Supported: p.Supported, LogOverride: logOverrideOf(p.LogOverride),
+		MangleCache: mangleCacheOf(p.MangleCacheJSON), Banner: p.Banner, Footer: p.Footer,
+		Alias: p.Alias, External: p.External, OutExtension: p.OutExtension, EntryNames: p.EntryNames, ChunkNames: p.ChunkNames, AssetNames: p.AssetNames,
+		Conditions: p.Conditions, MainFields: p.MainFields, ResolveExtensions: p.ResolveExtensions, Inject: p.Inject, PublicPath: p.PublicPath,
 	}
 	res := api.Build(opts)
 	o.NErrors, o.NWarn = len(res.Errors), len(res.Warnings)
